@@ -3,14 +3,16 @@
 // Contracts for package model, read by /verif/govc.
 package model
 
-// The transaction id travels in the context.  ctxTxId is the abstract reading of it;
-// the two three-line helpers below are trusted to implement it with context.WithValue / Value.
-//@ pure func ctxTxId(ctx context.Context) string
+// The transaction id travels in the context under the key ctxTxIdKey{}.  ctxTxId is the reading of it that
+// every other contract uses: the string stored under that key, MainTxId when there is none or it is empty.
+// Both helpers are proved against the contracts of context.WithValue / Context.Value (trusted, stdlib.spec).
+//@ pure func ctxTxId(ctx context.Context) string =
+//@     ite(typeis(ctxVal(ctx, box(zero(ctxTxIdKey))), string) && unbox(ctxVal(ctx, box(zero(ctxTxIdKey))), string) != "",
+//@         unbox(ctxVal(ctx, box(zero(ctxTxIdKey))), string), MainTxId)
 
 //@ func GetTxId
-//@   trusted
+//@   requires ctx: ctx != nil
 //@   ensures id: result == ctxTxId(ctx) && result != ""
 
 //@ func StoreTxId
-//@   trusted
 //@   ensures id: ctxTxId(result) == ite(txId == "", MainTxId, txId) && result != nil
